@@ -41,6 +41,8 @@ pub fn set_current(k: HasherKind) {
 }
 /// start of a run: instance numbering restarts, so that a run does not depend on its predecessors
 pub fn reset_instances() {
+    // (called at the start of every run: also the place to clear per-run harness flags)
+    crate::queue::NE_DISAGREES.with(|c| c.set(None));
     INSTANCES.with(|c| c.set(0));
 }
 pub fn current() -> HasherKind {
